@@ -200,18 +200,18 @@ _WPS_LAYOUT = ['dd_dtw.c::dtw_wps_parts', 'dd_dtw.c::dtw_settings_wps_length', '
                'dd_dtw.c::dtw_wps_loc_columns']
 _WPS_VALUE = ['dd_dtw.c::dtw_wps_negativize_value', 'dd_dtw.c::dtw_wps_positivize_value', 'dd_dtw.c::dtw_wps_max']
 _ALL_C_PROVED = (PROPS['C09']['contracts'][:10] + PROPS['C06']['contracts'][6:] + PROPS['C07']['contracts'] + PROPS['C02']['contracts']
-                 + _WPS_LAYOUT + _WPS_VALUE)
+                 + _WPS_LAYOUT + _WPS_VALUE + ['dd_dtw.c::dtw_best_path'])
 
 PROPS['C08'] = dict(
-    modules=['contracts.ed_c', 'contracts.bounds_c', 'contracts.dtw_matrix_c', 'contracts.dtw_omp_c', 'contracts.dtw_c', 'contracts.wps_c'],
+    modules=['contracts.ed_c', 'contracts.bounds_c', 'contracts.dtw_matrix_c', 'contracts.dtw_omp_c', 'contracts.dtw_c', 'contracts.wps_c', 'contracts.bestpath_c'],
     contracts=[c for c in _ALL_C_PROVED if '::' in c],
     lemmas=['LenFullClosed', 'LenRectClosed', 'RowsBefore', 'RowsBeyond', 'LenFullBeyond', 'LenRowsNonneg',
             'RowAllInf', 'RowLeadInf', 'FoldMinIsMin'],
     bounded=dict(_CML, **dict(_CAFF, **_CDBA)),
     level='proof',
-    level_text='For 37 exported C routines (Euclidean bounds, LB_Keogh, block/length helpers, the six serial and six OpenMP '
+    level_text='For 38 exported C routines (Euclidean bounds, LB_Keogh, block/length helpers, the six serial and six OpenMP '
                'distance-matrix routines with their prepare step, the four DTW kernels, and the compact-layout helpers dtw_wps_parts, '
-               'dtw_settings_wps_length/width, dtw_wps_loc, dtw_wps_loc_columns, dtw_wps_max, dtw_wps_negativize_value/positivize_value) every array access, every signed idx_t '
+               'dtw_settings_wps_length/width, dtw_wps_loc, dtw_wps_loc_columns, dtw_wps_max, dtw_wps_negativize_value/positivize_value, and the traceback dtw_best_path -- for every content of the compact matrix) every array access, every signed idx_t '
                'operation, every division, every assert() and every pointer dereference is a discharged obligation under the '
                'documented buffer sizes, for all lengths/windows/psi/blocks. The remaining exported routines (cost matrix in the '
                'compact layout, expansion, slices, best path, warping path) are covered by a *bounded* sanitizer sweep only.',
@@ -259,8 +259,9 @@ PROPS['C04'] = dict(
 )
 
 PROPS['C05'] = dict(
-    modules=['contracts.dtw_c', 'contracts.paths_py'],
-    contracts=['dtw.best_path', 'dtw.best_path#wf', 'dtw.best_path#cost', 'dtw.warping_path', 'dtw.warping_path#cost'],
+    modules=['contracts.dtw_c', 'contracts.paths_py', 'contracts.wps_c', 'contracts.bestpath_c'],
+    contracts=['dtw.best_path', 'dtw.best_path#wf', 'dtw.best_path#cost', 'dtw.warping_path', 'dtw.warping_path#cost',
+               'dd_dtw.c::dtw_best_path'],
     lemmas=['WNonneg'],
     bounded=dict(_CM, **{'path-validity-native-sweep': lambda run: _native_sweep(
         'paths_native.py',
@@ -285,15 +286,21 @@ PROPS['C05'] = dict(
     level_note='Trusted: dvc Python semantics incl. list append / pop / reverse and np.argmin = first minimum (A1, A3), order axioms '
                'of non-NaN doubles, IEEE facts sqrt(x) >= 0, sqrt monotone, x + 0 == x, adding a non-negative term does not decrease, '
                'solvers (A7). Lemma WNonneg (W >= 0) by induction on the anti-diagonal. Genuine defects recorded by the sweep: '
-               'KF-C05-1..3 (psi relaxation, Python penalty ignored by warping_path, dropped inner_dist in warping_path_fast).',
+               'KF-C05-1..3 (psi relaxation, Python penalty ignored by warping_path, dropped inner_dist in warping_path_fast). '
+               'C engine: dd_dtw.c::dtw_best_path under contract for its index behaviour (contracts/bestpath_c.py): the position in the '
+               'compact matrix is wpsi == cip - shift(rip) in all three region loops, which is what a wrong corner / region boundary breaks.',
     trusted_base=[PY_A1, A3_NUMPY, A7],
     assumptions=[PY_A1, A3_NUMPY, A7, 'bounded part: lengths <= 6 (native), <= 4/5 (chains)'],
     not_decided=['accumulated cost along the path == distance for the squared inner distance (the traceback runs on square-rooted '
                  'cells, whose first minimum need not be the first minimum of the cells) and with a penalty (dtw.warping_path does not '
                  'pass it on: KF-C05-2): bounded only; the telescoping of the exact links into one sum is a one-line induction stated '
                  'in DESIGN 10.11, not machine-checked',
-                 'psi-relaxed start / end cells and the -1 marks: bounded only', 'C traceback routines dtw_best_path*: bounded only '
-                 '(sanitizer chains + native sweep)', 'dtw_ndim.warping_path, custom start cell (row / col): bounded only'],
+                 'psi-relaxed start / end cells and the -1 marks: bounded only',
+                 'C traceback dtw_best_path: the value-independent part is proved for every content of the compact matrix (all reads '
+                 'inside the buffer of the advertised size, all writes inside the l1+l2 index arrays, emitted pairs are series indices, '
+                 'non-increasing in both coordinates, at most l1+l2 of them, wps unchanged); that each step goes to a least candidate and '
+                 'the cost clause: bounded only (sanitizer chains + native sweep); dtw_best_path_customstart / _isclose / _affinity / '
+                 '_prob: bounded only', 'dtw_ndim.warping_path, custom start cell (row / col): bounded only'],
     technique='sidecar contracts on the real dtw.best_path and dtw.warping_path (modular: callee contracts at the two calls), VCs '
               'discharged by z3 / cvc5; symbolic lists of index pairs; bounded sweep of all path routines of both engines',
 )
